@@ -7,13 +7,13 @@
 (* Registers and words are bit strings, most significant bit first; 32-bit words are written as two *)
 (* 16-bit halves because TLC integers are 32-bit signed.                                            *)
 EXTENDS Naturals, Sequences
-Sq(f)          == f \o <<>>                                            \* forces TLC to evaluate a function into a tuple
-Bits(n, v)     == Sq([i \in 1..n |-> (v \div (2 ^ (n - i))) % 2])         \* v < 2^16 in all uses
+SqB(f)          == f \o <<>>                                            \* forces TLC to evaluate a function into a tuple
+Bits(n, v)     == SqB([i \in 1..n |-> (v \div (2 ^ (n - i))) % 2])         \* v < 2^16 in all uses
 Word(hi, lo)   == Bits(16, hi) \o Bits(16, lo)
-XorBits(a, b)  == Sq([i \in 1..Len(a) |-> (a[i] + b[i]) % 2])
-RevBits(s)     == Sq([i \in 1..Len(s) |-> s[Len(s) + 1 - i]])
+XorBits(a, b)  == SqB([i \in 1..Len(a) |-> (a[i] + b[i]) % 2])
+RevBits(s)     == SqB([i \in 1..Len(s) |-> s[Len(s) + 1 - i]])
 ByteOf(s, k)   == LET V[i \in 0..8] == IF i = 0 THEN 0 ELSE 2 * V[i - 1] + s[8 * (k - 1) + i] IN V[8]   \* k-th byte of a bit string
-BytesOf(s)     == Sq([k \in 1..(Len(s) \div 8) |-> ByteOf(s, k)])
+BytesOf(s)     == SqB([k \in 1..(Len(s) \div 8) |-> ByteOf(s, k)])
 CrcAlgs        == {"crc32", "crc32-mpeg", "crc16-xmodem"}
 CrcParams(alg) ==
   CASE alg = "crc32"        -> [w |-> 32, poly |-> Word(1217, 7607), init |-> Word(65535, 65535), refin |-> TRUE,  refout |-> TRUE,  xorout |-> Word(65535, 65535)]
